@@ -54,10 +54,15 @@ def run(ctx):
         crashed = None
         if rc != 0:
             last = re.findall(r"^scenario (\w+) (\d+)$", err, re.M)
-            pan = re.search(r"^(panic: .*|fatal error: .*)$", err, re.M)
+            pan = re.search(r"^(panic: .*|fatal error: .*|driver c09: no progress for 60 s)", err, re.M)
             if last and pan:
-                # the code under test died while this scenario ran: a concrete failing schedule
-                crashed = {"op": last[-1][0], "n": last[-1][1], "why": pan.group(1)[:300]}
+                # the code under test died (or the scenario hung past every bound) while this scenario ran: a concrete failing schedule
+                why = pan.group(1)[:300]
+                if why.startswith("driver c09"):
+                    # where the driver itself is blocked
+                    frames = re.findall(r"^main\.(\w+)\(.*\n\t\S*/(\w+\.go:\d+)", err, re.M)
+                    why += "; blocked in: " + ", ".join("%s %s" % f for f in frames[:8])
+                crashed = {"op": last[-1][0], "n": last[-1][1], "why": why}
             else:
                 broken.append({"kind": "obligation", "name": "driver c09 crashed", "detail": err[-1500:]})
         dis = ctx.correspond(lines, orc, "writer.go/reader.go/consumergroup.go/transport.go ↔ Model/WriterClose.lean, Model/ReaderClose.lean (observed-trace acceptance + monitor)")
